@@ -540,7 +540,7 @@ def rule_print_all(ctx: RuleContext, p: Program, rid: str) -> None:
             return x.f['str']
         if isinstance(x, str):
             return x
-        raise possem.Unsupported(f'str() of {x!r}')
+        raise AnalysisError(f'PRINT-ALL: str() of {x!r}')
 
     problem = ''
     for k in range(0, 6):
